@@ -120,6 +120,33 @@ var contentShapes = append(headings(), []shape{
 		a.add(el("ol", bb, li(b, 2, nil)))
 		return one(el("ul", a, li(b, 1, nil)))
 	}},
+	// list containers as direct children of list containers (no <li> in between): invalid per the content
+	// model but accepted by every parser and common in the wild
+	{"ulul-mid", func(b *builder) []*node {
+		return one(el("ul", li(b, 1, nil), el("ul", b.leaf("li", "li@direct")), li(b, 1, nil)))
+	}},
+	{"ulul-first", func(b *builder) []*node {
+		return one(el("ol", el("ul", b.leaf("li", "li@direct"), b.leaf("li", "li@direct")), li(b, 1, nil)))
+	}},
+	{"ulul-last", func(b *builder) []*node {
+		return one(el("ul", li(b, 1, nil), li(b, 1, nil), el("ol", b.leaf("li", "li@direct"))))
+	}},
+	{"ulul-two", func(b *builder) []*node {
+		return one(el("ul", li(b, 1, nil), el("ul", b.leaf("li", "li@direct")), li(b, 1, nil),
+			el("ol", b.leaf("li", "li@direct"), b.leaf("li", "li@direct")), li(b, 1, nil)))
+	}},
+	{"ulul-deep", func(b *builder) []*node {
+		// the directly nested container sits one level down, inside a properly nested list, and has a nested list itself
+		in := b.leaf("li", "li@direct")
+		in.add(el("ul", li(b, 3, nil)))
+		a := b.leaf("li", "li1")
+		a.add(el("ul", li(b, 2, nil), el("ol", in, b.leaf("li", "li@direct")), li(b, 2, nil)))
+		return one(el("ul", a, li(b, 1, nil)))
+	}},
+	{"divlists", func(b *builder) []*node {
+		// lists as siblings of one parent, directly adjacent and separated by a paragraph
+		return one(el("div", el("ul", li(b, 1, nil), li(b, 1, nil)), el("ol", li(b, 1, nil)), b.leaf("p", "p"), el("ul", li(b, 1, nil))))
+	}},
 	{"ulp", func(b *builder) []*node { return one(el("ul", lip(b, 1, nil), li(b, 1, nil))) }},
 	{"ulp2", func(b *builder) []*node {
 		a := el("li", b.leaf("p", "li-p"))
@@ -477,8 +504,10 @@ var innerShapes = []shape{
 type skeleton struct {
 	name  string
 	build func(b *builder, mid func(b *builder) []*node) *node
-	// inList: mid is placed inside an <li> (only list-typed wrappers fit)
+	// inList: mid is placed inside an <li> or directly inside a list (only list-typed wrappers fit)
 	inList bool
+	// loose: loose inline text sits next to mid inside the same container
+	loose bool
 }
 
 const filler = " lorem ipsum dolor sit amet consectetur adipiscing elit sed do eiusmod tempor incididunt ut labore et dolore magna aliqua ut enim ad minim veniam quis nostrud exercitation"
@@ -552,6 +581,13 @@ var skeletons = []skeleton{
 		addAll(a, mid(b))
 		return el("body", b.prose("p", "p"), el("ul", a, pli(b, 1)), b.prose("p", "p"))
 	}},
+	{name: "ul-direct", inList: true, build: func(b *builder, mid func(b *builder) []*node) *node {
+		// the list-typed wrapper is a direct child of the list, between two items
+		u := el("ul", pli(b, 1))
+		addAll(u, mid(b))
+		u.add(pli(b, 1))
+		return el("body", b.prose("p", "p"), u, b.prose("p", "p"))
+	}},
 	{name: "in-li-li", inList: true, build: func(b *builder, mid func(b *builder) []*node) *node {
 		in := b.prose("li", "li2")
 		addAll(in, mid(b))
@@ -559,4 +595,48 @@ var skeletons = []skeleton{
 		a.add(el("ol", in, pli(b, 2)))
 		return el("body", el("ul", a, pli(b, 1)), b.prose("p", "p"))
 	}},
+}
+
+// onlyChild: the block(s) under test are the only children of a neutral container.
+func onlyChild(tag string) func(b *builder, mid func(b *builder) []*node) *node {
+	return func(b *builder, mid func(b *builder) []*node) *node {
+		n := el(tag)
+		addAll(n, mid(b))
+		return el("body", b.prose("h1", "h1"), n, b.prose("p", "p"))
+	}
+}
+
+// looseBeside: like onlyChild, with loose inline text (no content element, no token) before or after the block(s).
+func looseBeside(tag string, before, span bool) func(b *builder, mid func(b *builder) []*node) *node {
+	return func(b *builder, mid func(b *builder) []*node) *node {
+		n := el(tag)
+		txt := raw("posted by ann on monday in general remarks and other matters of little interest ")
+		if span {
+			txt = el("span", txt)
+		}
+		if before {
+			n.add(txt)
+		}
+		addAll(n, mid(b))
+		if !before {
+			n.add(txt)
+		}
+		return el("body", b.prose("h1", "h1"), n, b.prose("p", "p"))
+	}
+}
+
+func init() {
+	skeletons = append(skeletons,
+		skeleton{name: "only-div", build: onlyChild("div")},
+		skeleton{name: "only-section", build: onlyChild("section")},
+		skeleton{name: "only-article", build: onlyChild("article")},
+		skeleton{name: "only-main", build: onlyChild("main")},
+		skeleton{name: "wrapdiv-only", build: func(b *builder, mid func(b *builder) []*node) *node {
+			return el("body", addAll(el("div"), mid(b))) // the sole wrapper holds nothing but the block(s) under test
+		}},
+		skeleton{name: "loose-div-before", loose: true, build: looseBeside("div", true, false)},
+		skeleton{name: "loose-div-after", loose: true, build: looseBeside("div", false, false)},
+		skeleton{name: "loose-div-span", loose: true, build: looseBeside("div", true, true)},
+		skeleton{name: "loose-section-before", loose: true, build: looseBeside("section", true, false)},
+	)
 }
